@@ -232,6 +232,15 @@ func (o *vectorOperator) Next(ctx context.Context) ([]model.StepVector, error) {
 	// we might want to drain or close the other one.
 	// We don't have a concept of closing an operator yet.
 	if len(lhs) == 0 || len(rhs) == 0 {
+		// Nothing will match any more, but the reference engine evaluates
+		// both operands completely: an error in the rest of the longer one
+		// still fails the query.
+		if err := drain(ctx, o.lhs, lhs); err != nil {
+			return nil, err
+		}
+		if err := drain(ctx, o.rhs, rhs); err != nil {
+			return nil, err
+		}
 		return nil, nil
 	}
 
@@ -274,6 +283,24 @@ func (o *vectorOperator) Next(ctx context.Context) ([]model.StepVector, error) {
 	o.rhs.GetPool().PutVectors(rhs)
 
 	return batch, nil
+}
+
+// drain consumes the rest of the stream of an operator, batch being the last
+// batch it returned.
+func drain(ctx context.Context, op model.VectorOperator, batch []model.StepVector) error {
+	for len(batch) > 0 {
+		for _, vector := range batch {
+			op.GetPool().PutStepVector(vector)
+		}
+		op.GetPool().PutVectors(batch)
+
+		var err error
+		batch, err = op.Next(ctx)
+		if err != nil {
+			return err
+		}
+	}
+	return nil
 }
 
 func (o *vectorOperator) GetPool() *model.VectorPool {
